@@ -378,14 +378,21 @@ def edgeWeight (s : State) (a b : Nat) : Except Fault (Option Int) :=
     | some c => .ok c
     | none => .error .oob
 
-/-- `*edge_weight_mut(a, b) = w` -/
+/-- the cell a raw write of `w` through `&mut E` leaves behind: `NotZero(0)` *is* the null element
+(`is_null` = `is_zero`), so in a `NotZero` matrix a written zero is an empty cell -/
+def rawCell (nz : Bool) (w : Int) : Cell :=
+  if nz && w == 0 then none else some w
+
+/-- `*edge_weight_mut(a, b) = w`: a raw write into the cell, `nb_edges` is not touched.  (Writing the
+sentinel of a `NotZero` graph this way is outside the documented use; the model follows the code:
+the cell becomes null and `nb_edges` stays — `Theorems/C04.lean`, `C04_zero_through_mut`.) -/
 def setEdgeWeight (s : State) (a b : Nat) (w : Int) : State × Out :=
   match edgeWeight s a b with
   | .error e => (s, .fault e)
   | .ok none => (s, .panic)
   | .ok (some _) =>
     match edgePos s a b with
-    | some p => ({ s with adj := s.adj.setIfInBounds p (some w) }, .unit)
+    | some p => ({ s with adj := s.adj.setIfInBounds p (rawCell s.nz w) }, .unit)
     | none => (s, .fault .oob)
 
 /-- `*node_weight_mut(a) = w` -/
@@ -411,26 +418,34 @@ def buildUpdateEdge (s : State) (a b : Nat) (w : Int) : State × Out :=
   | (s', .optW _) => (s', .unit)
   | r => r
 
+/-- the loop `while nx >= self.node_count() { self.add_node(N::default()) }` of `extend_with_edges`
+(`N::default()` = 0); the fuel is the number of rounds (`Theorems/C04.lean`,
+`C04_extend_fuel_suffices`: with `nx + 1 - node_count` rounds the loop condition is false at the end) -/
+def addNodesUpTo (nx : Nat) : Nat → State → State × Out
+  | 0, s => (s, .unit)
+  | f + 1, s =>
+    if nx ≥ s.nodes.len then
+      match addNode s 0 with
+      | (s', .id _) => addNodesUpTo nx f s'
+      | r => r
+    else (s, .unit)
+
 /-- `extend_with_edges`: per element, `while nx >= node_count { add_node(default) }`, `add_edge` -/
 def extendWithEdges (s : State) : List (Nat × Nat × Int) → State × Out
   | [] => (s, .unit)
   | (a, b, w) :: rest =>
-    let nx := max a b
-    -- the `while` loop runs at most `nx + 1 - node_count` times (each round adds one node)
-    let rec addLoop (s : State) : Nat → State × Out
-      | 0 => (s, .unit)
-      | f + 1 =>
-        if nx ≥ s.nodes.len then
-          match addNode s 0 with
-          | (s', .id _) => addLoop s' f
-          | r => r
-        else (s, .unit)
-    match addLoop s (nx + 1 - s.nodes.len) with
+    match addNodesUpTo (max a b) (max a b + 1 - s.nodes.len) s with
     | (s1, .unit) =>
       (match addEdge s1 a b w with
         | (s2, .unit) => extendWithEdges s2 rest
         | r => r)
     | r => r
+
+/-- `from_edges` = `Self::default()` then `extend_with_edges` -/
+def fromEdges (dir nz : Bool) (ixMax : Nat) (es : List (Nat × Nat × Int)) : State × Out :=
+  match withCapacity dir nz ixMax 0 with
+  | .ok s => extendWithEdges s es
+  | .error e => ({ dir, nz, ixMax }, .fault e)
 
 /-! ### iterators -/
 
